@@ -269,7 +269,7 @@ def run_case(w, case):
     def result(outcome, violation=None):
         w.close_origin_conns()
         return {'outcome': outcome, 'violation': violation, 'transcript': '\n'.join(tr)}
-    rep1 = {'etag': ETAGS[case['etag']], 'lm': T0 if case['lm'] else None, 'body': ('v1-%d' % n).encode(), 'marker': 'm1', 'extra': ['X-Old: o1'], 'date': now_s}
+    rep1 = {'etag': ETAGS[case['etag']], 'lm': T0 if case['lm'] else None, 'body': ('v1-%d' % n).encode(), 'marker': 'm1', 'extra': ['X-Old: o1', 'X-Tag: old'], 'date': now_s}
     if case['part'] == 'A':
         origin = Origin(w, rep1, 3600)
         cond = {'inm': case['inm'], 'ims': ims_value(case['ims'], now_s), 'im': case['im']}
@@ -295,10 +295,10 @@ def run_case(w, case):
     w.sq.advance(120_000)
     now2 = w.sq.now_us // 1_000_000
     if case['scenario'] == 'same':
-        rep2 = dict(rep1, marker='m2', extra=['X-New: n2'], date=now2)
+        rep2 = dict(rep1, marker='m2', extra=['X-New: n2', 'X-Tag: one', 'X-Tag: two'], date=now2)   # a field name repeated on two lines
     else:
         e2 = {'strong': '"c"', 'weak': 'W/"c"', 'none': None}[case['etag']]
-        rep2 = {'etag': e2, 'lm': (T0 + 3600) if case['lm'] else None, 'body': ('v2-%d' % n).encode(), 'marker': 'm2', 'extra': ['X-New: n2'], 'date': now2}
+        rep2 = {'etag': e2, 'lm': (T0 + 3600) if case['lm'] else None, 'body': ('v2-%d' % n).encode(), 'marker': 'm2', 'extra': ['X-New: n2', 'X-Tag: one', 'X-Tag: two'], 'date': now2}
     origin.rep = rep2
     c = case['cond']
     cond = {'inm': c.get('inm'), 'im': c.get('im'), 'ims': ims_value(c.get('ims'), now2)}
@@ -335,6 +335,9 @@ def run_case(w, case):
         elif r2.get('x-marker') != 'm2' or r2.get('x-new') != 'n2':
             v = '[refresh-headers] after the origin revalidated the entry with 304 carrying X-Marker: m2 and X-New: n2, a later hit has X-Marker %r X-New %r' % (
                 r2.get('x-marker'), r2.get('x-new'))
+        elif sorted(x.strip() for l in r2.get_all('x-tag') for x in l.split(',')) != ['one', 'two']:
+            # RFC 9111 3.2: all instances of a field named in the 304 replace all stored instances
+            v = '[refresh-headers] the 304 carried X-Tag: one and X-Tag: two (stored: X-Tag: old); a later hit has X-Tag %r' % (r2.get_all('x-tag'),)
         return result(oc1 + ':later-hit-refreshed' + ('' if r2.get('x-old') == 'o1' else ':x-old-dropped'), v)
     if origin_200 and st2 == 200 and r2.body == rep1['body'] and case['scenario'] == 'changed':
         return result(oc1 + ':later-hit-OLD-BODY')
